@@ -136,7 +136,7 @@ def formulas(tier):
                 else:
                     f = mk("IfThenElse", i1, other, cond=c) if i % 2 else mk("IfThenElse", other, i2, cond=c)
                 out.append((f"{outer}({inn})", f))
-    if tier == "thorough":
+    if tier in ("thorough", "deep"):
         # depth 3 on a 3-atom pool
         P3 = [A[0][1], A[2][1], A[4][1]]
         for o1, o2, o3 in itertools.product(["Not", "And", "Or", "Xor", "Implies"], repeat=3):
@@ -243,4 +243,7 @@ def k_jobs(tier):
 
 
 def main(tier):
-    return common.run_space_check("C10", tier, jobs(tier), RULE, ASSUME, budget_s=110 if tier == "quick" else 1500)
+    js = jobs(common.level("C10", tier))
+    if common.level("C10", tier) == "deep":
+        js = common.widen(js, by=(1,))
+    return common.run_space_check("C10", tier, js, RULE, ASSUME, budget_s=110 if tier == "quick" else 1500)
